@@ -69,6 +69,7 @@ def upOfEvents : List Client.CEvent → List UpD
   | .query id ty name :: r => .query id ty name :: upOfEvents r
   | .rawtx b :: r => .raw b :: upOfEvents r
   | .tunw _ :: r => upOfEvents r
+  | .sys _ :: r => upOfEvents r        -- (handshake only: never produced by the tunnel phase)
 
 def tunOfCEvents : List Client.CEvent → List (List Nat)
   | [] => []
